@@ -141,6 +141,15 @@ def r_arith(F, V):
                                 if o["k"] not in ("copy", "move"):
                                     continue
                                 dd = body.single_def(body.root_of_place(o["p"])[0])
+                                # look through `?` (Try::branch) and plain copies to the addition itself
+                                for _ in range(6):
+                                    if dd and dd[0] == "call" and ((callee_path(dd[3]) or "").startswith("core::option::<Option as Try>") or "try_trait" in (callee_path(dd[3]) or "") or "try_trait" in dd[3]["f"].get("path", "")) \
+                                            and dd[3]["args"] and dd[3]["args"][0]["k"] in ("copy", "move"):
+                                        dd = body.single_def(body.root_of_place(dd[3]["args"][0]["p"])[0])
+                                    elif dd and dd[0] == "stmt" and dd[3]["k"] == "assign" and dd[3]["rv"]["k"] == "use" and dd[3]["rv"]["op"]["k"] in ("copy", "move"):
+                                        dd = body.single_def(body.root_of_place(dd[3]["rv"]["op"]["p"])[0])
+                                    else:
+                                        break
                                 parts = []
                                 if dd and dd[0] == "call" and (callee_path(dd[3]) or "").endswith("checked_add"):
                                     parts = dd[3]["args"]
